@@ -33,12 +33,24 @@ BOUNDS = sorted(set(v for s in (1, 2, 4, 8) for v in
                      (1 << (8 * s)) - 1, 1 << (8 * s))) | {-2, -1, 0, 1, 2, 3})
 
 
+def observed(fn, *a):
+    """the value, or the exception class as the observed value"""
+    try:
+        return fn(*a)
+    except Exception as e:
+        return "raises " + type(e).__name__
+
+
 def facts(ffi, t):
     if t.kind != "primitive":
         return dict(cname=t.cname, tkind=t.kind)
-    r = dict(cname=t.cname, size=ffi.sizeof(t), align=ffi.alignof(t), tkind=t.kind)
-    p = ffi.new(ffi.getctype(t, "*"))
-    v = p[0]
+    r = dict(cname=t.cname, size=observed(ffi.sizeof, t), align=observed(ffi.alignof, t), tkind=t.kind)
+    try:
+        p = ffi.new(ffi.getctype(t, "*"))
+        v = p[0]
+    except Exception as e:
+        r["cls"] = "raises " + type(e).__name__
+        return r
     if isinstance(v, bool):
         cls = "b"
     elif isinstance(v, int):
@@ -54,24 +66,33 @@ def facts(ffi, t):
     else:
         cls = "?" + type(v).__name__
     r["cls"] = cls
-    if cls in "ibc":
-        r["neg"] = int(ffi.cast(t, -1)) < 0
-    if cls in "ib":
-        acc = []
-        for b in BOUNDS:
-            try:
-                q = ffi.new(ffi.getctype(t, "*"), b)
-                acc.append([str(b), True, str(int(q[0]))])
-            except OverflowError:
-                acc.append([str(b), False, None])
-        r["accept"] = acc
-    if cls in "fF":
-        q = ffi.new(ffi.getctype(t, "*"), 0.1)
-        r["exact01"] = float(q[0]) == 0.1
-    if cls == "j":
-        q = ffi.new(ffi.getctype(t, "*"), complex(0.1, 0.1))
-        r["exact01"] = q[0] == complex(0.1, 0.1)
+    try:
+        if cls in "ibc":
+            r["neg"] = int(ffi.cast(t, -1)) < 0
+        if cls in "ib":
+            acc = []
+            for b in BOUNDS:
+                try:
+                    q = ffi.new(ffi.getctype(t, "*"), b)
+                    acc.append([str(b), True, str(int(q[0]))])
+                except OverflowError:
+                    acc.append([str(b), False, None])
+            r["accept"] = acc
+        if cls in "fF":
+            q = ffi.new(ffi.getctype(t, "*"), 0.1)
+            r["exact01"] = float(q[0]) == 0.1
+        if cls == "j":
+            q = ffi.new(ffi.getctype(t, "*"), complex(0.1, 0.1))
+            r["exact01"] = q[0] == complex(0.1, 0.1)
+    except Exception as e:
+        r["probe_error"] = type(e).__name__ + ": " + str(e)[:120]
     return r
+
+
+def layout(ffi, tag):
+    """struct <tag> { char c; T f; }: offsetof(f), sizeof, alignof - or the exception class"""
+    return dict(offset=observed(ffi.offsetof, tag, "f"), size=observed(ffi.sizeof, tag),
+                align=observed(ffi.alignof, tag))
 
 
 def load_abi(ffi, name):
@@ -118,11 +139,21 @@ def main(payload):
         out.append(r)
     by = dict((r["spelling"], r) for r in out)
 
-    # out-of-line ABI module: typedef -> OP_PRIMITIVE index -> primitive_name[index]
+    # out-of-line ABI module: typedef -> OP_PRIMITIVE index -> primitive_name[index];
+    # plus one struct { char c; T f; } per primitive: the layout shows the alignment the backend really uses
     prim_ok = [sp for sp in accepted if by[sp]["facts"]["tkind"] == "primitive"]
     ffi2 = cffi.FFI()
-    ffi2.cdef("\n".join("typedef %s c06_t%d;" % (sp, i) for i, sp in enumerate(prim_ok)))
+    ffi2.cdef("\n".join("typedef %s c06_t%d;\nstruct c06_s%d { char c; %s f; };" % (sp, i, i, sp)
+                        for i, sp in enumerate(prim_ok)))
     mod = load_abi(ffi2, "_c06_abi")
+    for i, sp in enumerate(prim_ok):
+        r = by[sp]
+        r["routes"] = {}
+        for route, ff in (("in-line FFI (typedef)", ffi2), ("_cffi_backend.FFI()", backend), ("out-of-line ABI module", mod.ffi)):
+            name = sp if route == "_cffi_backend.FFI()" else "c06_t%d" % i
+            r["routes"][route] = dict(size=observed(ff.sizeof, name), align=observed(ff.alignof, name))
+        r["layout"] = {"in-line FFI": layout(ffi2, "struct c06_s%d" % i),
+                       "out-of-line ABI module": layout(mod.ffi, "struct c06_s%d" % i)}
     for i, sp in enumerate(prim_ok):
         r = by[sp]
         try:
